@@ -462,27 +462,37 @@ func c17MqExec(in c17MqIn) (obs c17MqObs) {
 			if s.state != 2 {
 				continue
 			}
-			if err := packets.NewControlPacket(packets.Pingreq).Write(s.conn); err != nil {
-				continue
-			}
-			t := time.After(c17MqWait)
-		wait:
-			for {
-				select {
-				case e := <-s.ev:
-					if e.eof {
-						s.state = 0
-						s.conn.Close()
-						break wait
-					}
-					if _, ok := e.pk.(*packets.PingrespPacket); ok {
-						obs.Alive++
-						break wait
-					}
-				case <-t:
-					obs.Desync = true
-					break wait
+			// Two rounds: a client that has just been closed (superseded / deleted) may still get ONE
+			// PINGRESP out if its writeLoop goroutine had not run its select yet (both cases ready);
+			// its readLoop ends right after that packet, so the second PINGREQ is never answered.
+			ok := true
+			for round := 0; round < 2 && ok; round++ {
+				ok = false
+				if err := packets.NewControlPacket(packets.Pingreq).Write(s.conn); err != nil {
+					break
 				}
+				t := time.After(c17MqWait)
+			wait:
+				for {
+					select {
+					case e := <-s.ev:
+						if e.eof {
+							s.state = 0
+							s.conn.Close()
+							break wait
+						}
+						if _, isPong := e.pk.(*packets.PingrespPacket); isPong {
+							ok = true
+							break wait
+						}
+					case <-t:
+						obs.Desync = true
+						break wait
+					}
+				}
+			}
+			if ok {
+				obs.Alive++
 			}
 		}
 	}
